@@ -310,6 +310,10 @@ flenp_chunks_to_sink(const LengthPrefixKind k, Sink *sink, ByteChunks *oc)
 
     for (size_t i = oc->active; i < oc->chunks; ++i) {
         const size_t n = byte_buffer_rest(oc->chunk + i);
+        if (n == 0u) {
+            /* Nothing to send from this chunk. */
+            continue;
+        }
         const ssize_t rcsink = sink_put_chunk(
             sink, oc->chunk[i].data + oc->chunk[i].offset, n);
         if (rcsink < 0) {
